@@ -179,7 +179,7 @@ def dark_sky(ck):
     it = harness.make_interp(ov)
 
     def mk():
-        t = object.__new__(ToOEvent)
+        t = harness.partial(ToOEvent)
         t.sun_alt_cut, t.moon_alt_cut, t.MoonMinPhaseAngleCut = S(sun_cut, "py"), S(moon_cut, "py"), S(phase_cut, "py")
         return t.sun_moon_cut, [A((ax,), tsym, sp.true, origin="time")], {}
 
